@@ -172,8 +172,7 @@ def gen_media(rng, depth=0):
             inner.append(Stmt('page', text='@page :left{margin:1cm}'))
         else:
             inner.append(Stmt('unknown', text=rng.choice(UNKNOWN_AT)))
-    # inside @media the code compares the at-keyword VALUE: keep nested keywords in lower case
-    kw = at_kw(rng, '@media') if depth == 0 else '@media'
+    kw = at_kw(rng, '@media')
     head = kw + ws(rng, True) + rng.choice(MEDIA) + rng.choice(['', ' ', '\n'])
     gaps = {'inner': [rng.choice(['', ' ', '\n  ']) for _ in range(n + 1)]}
     return Stmt('media', head=head, inner=inner, gaps=gaps)
